@@ -181,8 +181,21 @@ def run(ctx):
     ctx.note("end of input -> quit -> detach is C09.R5")
 
     from ..panics import run_ledger
+    # the decrement of the `step into` counter: C10.R4 evaluates the stepper's transition for every counter value and shows that no
+    # counter reachable from `step into N` (N >= 1, C10.R3) lets the decrement underflow - whatever the counter's representation
+    status_fields = {f_["name"] for v_ in prog.adt("lace::debugger::Status")["variants"] for f_ in v_.get("fields", []) if "16" in str(f_.get("ty", "u16"))}
+
+    def stepper_decrement(st):
+        if st.fn.name != pz.name or st.kind != "overflow:Sub" or len(st.operands) != 2 or st.operands[1] != ("const", 1):
+            return False
+        x = st.operands[0]
+        while x[0] in ("deref", "ref"):
+            x = x[1]
+        return x[0] in ("local", "arg") and x[2] in status_fields
     run_ledger(ctx, "C16.R4", "closed panic ledger of the run loop, the pausing code and the command arms", [rl.name, pz.name], floor=20,
-               only=lambda s: (s.fn.name.startswith("lace::debugger::") and "::command::" not in s.fn.name) or s.fn.name == rl.name)
+               only=lambda s: (s.fn.name.startswith("lace::debugger::") and "::command::" not in s.fn.name) or s.fn.name == rl.name,
+               conditional=[(stepper_decrement, "C10.R4", "the stepper's counter never holds a value whose decrement underflows (C10.R4: one-step outcome of every "
+                             "counter value, rank of every initial counter)")])
 
 
 def _path(fn, src, dst, avoid, blocked_edge):
